@@ -31,8 +31,8 @@ CHECKS = {
  "C06": ("fault_enumeration", "runtime fault injection with deviating executors: histories are run with a permutation executor / decomposition hints that deviate on values the verifier does not fix (permutation outputs, and non-bus INPUT lanes of a permutation row forged in the trace with the row recomputed and carried), the traces are proven with the honest prover data and verified; accepted proofs must carry the native challenges",
          "Per configuration: every limb class (rate, capacity, single limb, high coefficients) x value kinds x permutation index, plus non-canonical decomposition hints; 8 provable configurations x recompose on/off.",
          "DESIGN.md §3 C06", TRUSTED),
- "C18": ("exploration", "runtime monitor over repeated executions: each program is rebuilt several times in-process (fresh hash seeds per map) and in freshly spawned processes; canonical digests of ops, numbering, maps, preprocessed columns, AIR order and preprocessed commitment are compared; a canary map shows the iteration-order dimension was varied",
-         "Generated programs on 8 setups plus NPO-rich BabyBear D4 circuits (Poseidon2 + recompose, tags, connects); 5-8 in-process repetitions and 3-6 processes each. Hash seeds are sampled, a non-determinism needing a specific collision can be missed; the `parallel` feature is not varied.",
+ "C18": ("exploration", "runtime monitor over repeated executions: each program is rebuilt several times in-process (fresh hash seeds per map), in freshly spawned processes, and in processes of a second build of the monitor with the upstream `parallel` (rayon) feature on under RAYON_NUM_THREADS = 1, 4, 16; canonical digests of ops, numbering, maps, preprocessed columns, AIR order, preprocessed commitment and (where the circuit is run and proven) the primitive main matrices and the main-trace commitment are compared; a canary map shows the iteration-order dimension was varied",
+         "Generated programs on 8 setups, NPO-rich BabyBear D4 circuits, library-built challenger circuits on 12 configurations (Poseidon2/Poseidon1/recompose tables, run and proven: this is where the parallel trace generation lives), and the recursive verifier circuits (verify_*_circuit and build_next_layer_circuit) of every proof shape of the shared kit. Hash seeds and thread schedules are sampled, a non-determinism needing a specific collision can be missed; hiding-PCS shapes are left out of the parallel-feature processes (upstream p3-fri deadlock, see DESIGN.md).",
          "DESIGN.md §3 C18", TRUSTED),
  "C19": ("fault_enumeration", "runtime fault injection on the runner API executed under two build profiles, under the Miri interpreter and under valgrind memcheck: each (circuit, input fault) is run by the release binary, by a dev-profile build, (sample) under Miri and (thorough, sample) by the release binary under memcheck; outcomes compared, Ok on a faulted run or any UB report is a violation",
          "Faults: inputs withheld / short / long / set twice / conflicting, private data missing / duplicated / wrong type / wrong size / unknown op, non-boolean direction bit; circuits whose inputs feed ALU rows, hints and Poseidon2 rows (sponge, chained, Merkle) directly.",
